@@ -52,6 +52,7 @@ class Verifier(Calls):
         self.no_typing = False
         self.iter_stack = []
         self.iter_by_ord = {}
+        self.entry_by_ord = {}
         self.global_overrides = {}
         self.static_dicts = {}
         self.keepalive = []
@@ -209,6 +210,7 @@ class Verifier(Calls):
         self.keepalive = []
         self.iter_stack = []
         self.iter_by_ord = {}
+        self.entry_by_ord = {}
         self.static_dicts = {}
         self.global_overrides = {}
         self.fresh_objs = {}
@@ -620,6 +622,75 @@ def to_smt2_sliced(obl, background):
         return None            # nothing dropped: same as the full problem
     o2 = Obligation(obl.name, chosen, obl.goal, obl.kind, obl.line, obl.extra)
     return to_smt2(o2, background)
+
+
+def discharge_singles(name, kind, line, nobg_text, timeout_ms=1500, limit=16, seed=0):
+    """weakenings `quantifier-free assumptions + ONE quantified assumption` (most recent first), from the no-background text.
+    z3 finds the needed instance at once when the one relevant quantified fact stands alone, and wanders when all are present."""
+    from .symex import has_quantifier
+    t0 = time.time()
+    ctx = z3.Context()
+    asserts = list(z3.parse_smt2_string(nobg_text, ctx=ctx))
+    if not asserts:
+        return None
+    goal_neg = asserts[-1]
+    ground = [a for a in asserts[:-1] if not has_quantifier(a)]
+    quants = [a for a in asserts[:-1] if has_quantifier(a)]
+    if len(quants) < 2:
+        return None
+    def attempt(qs, label, to):
+        s = z3.Solver(ctx=ctx)
+        s.add(ground)
+        s.add(qs)
+        s.add(goal_neg)
+        st, mdl, reason = run_z3_cli(s.to_smt2().replace("(check-sat)", ""), to, seed)
+        if st == "unsat":
+            return Result(name, "proved", label, time.time() - t0, kind, line)
+        return None
+
+    for q in list(reversed(quants))[:limit]:
+        r = attempt([q], "z3 (quantifier-free assumptions + one quantified assumption)", timeout_ms)
+        if r is not None:
+            return r
+    # quantified assumptions within one / two hops of the goal (shared non-parameter symbols)
+    def syms(t):
+        return {x for x in term_symbols_ctx(t) if not x.startswith("p_")}
+    gs = syms(goal_neg)
+    qsyms = [(q, syms(q)) for q in quants]
+    h1 = [q for q, sy in qsyms if sy & gs]
+    s1 = set(gs)
+    for q, sy in qsyms:
+        if sy & gs:
+            s1 |= sy
+    h2 = [q for q, sy in qsyms if sy & s1]
+    for sel, label in ((h1, "one hop"), (h2, "two hops")):
+        if 1 < len(sel) < len(quants):
+            r = attempt(sel, "z3 (quantifier-free assumptions + quantified assumptions within %s of the goal)" % label, 4 * timeout_ms)
+            if r is not None:
+                return r
+    return None
+
+
+def term_symbols_ctx(term):
+    """like term_symbols, for terms of any context (no cache); havoc'd heap arrays DO link, entry arrays and engine symbols do not"""
+    names = set()
+    seen = set()
+    todo = [term]
+    while todo:
+        x = todo.pop()
+        if x.get_id() in seen:
+            continue
+        seen.add(x.get_id())
+        if z3.is_quantifier(x):
+            todo.append(x.body())
+            continue
+        if z3.is_app(x):
+            if x.decl().kind() == z3.Z3_OP_UNINTERPRETED:
+                nm = x.decl().name()
+                if nm not in UBIQUITOUS and not nm.endswith("@0") and not nm.startswith("alloc!") and nm != "$alloc@0":
+                    names.add(nm)
+            todo.extend(x.children())
+    return names
 
 
 Z3CLI = shutil.which("z3-new")
